@@ -89,6 +89,7 @@ class Flow(object):
         # type: (Name) -> None
         name.scope = self.scope
         if name.name in self.scope.globals:
+            name.scope = self.scope.top
             self.scope.top.add_global(name)
         else:
             self.scope.locals.add(name.name)
